@@ -191,6 +191,7 @@ def query : P (Query Nat Nat (Nat × Nat)) := do
   | "I" => do let q ← nat; let T ← nat; let ge ← nat; let p ← nat; pure (.ic (q, 0) T ge p)
   | "N" => do let d ← nat; pure (.setDens d)
   | "X" => pure .clear
+  | "W" => pure .setMethod
   | _ => failure
 
 def evTok (e : Cnd × Option (List (CS Nat Nat))) : String :=
